@@ -25,8 +25,45 @@ RULE = (
 )
 
 
+def frames_io(rec, hub, rng):
+    """imports / exports with caller-owned frames, arrays and files: none of them may be changed"""
+    from ..drivers import frames as F
+
+    fd = hub.fd
+    spec, dims = F.make_dims(fd, rng)
+    values = F.make_values(rng, dims.shape)
+    recs = F.long_records(spec, values)
+    k = len(spec)
+    for header in ("names", "letters", "mixed"):
+        layout = "wide" if rng.random() < 0.4 and any(len(s_[2]) > 1 for s_ in spec) else "long"
+        wd = None
+        if layout == "wide":
+            cands = [j for j in range(k) if len(spec[j][2]) > 1]
+            wd = cands[int(rng.integers(0, len(cands)))]
+        df, info = F.render(spec, recs, rng, layout=layout, wide_dim=wd, header=header, in_index=str(rng.choice(["none", "none", "all"])), omit_single=bool(rng.random() < 0.4))
+        if rng.random() < 0.5:
+            df = df.reset_index(drop=True) if df.index.names == [None] else df
+        try:
+            fd.FlodymArray.from_df(dims=dims, df=df)
+        except Exception:
+            pass
+        t = fd.FlodymArray(dims=dims)
+        try:
+            t.set_values_from_df(df, allow_missing_values=bool(rng.integers(0, 2)))
+        except Exception:
+            pass
+        try:
+            x = fd.FlodymArray(dims=dims, values=values.copy())
+            x.to_df(index=bool(rng.integers(0, 2)))
+        except Exception:
+            pass
+
+
 def one(rec, hub, seed, tier, kind, i):
     rng = case_nprng(seed, f"c15.{kind}", 0, i)
+    if kind == "frames":
+        frames_io(rec, hub, rng)
+        return
     if kind == "program":
         letters = "abcd" if i % 3 else "abc"
         program.run_program(rec, hub, rng, 60 if tier == "quick" else 120, letters=letters, ill_rate=0.3, props=PROPS)
@@ -43,7 +80,7 @@ def run(rec, hub, tier, seed, shard, nshards, budget):
     inv.register(hub, PROPS)
     rec.require(program.MP15, 100)
     n_prog = 220 if tier == "quick" else 1500
-    work = [("program", i) for i in range(n_prog)] + [("whole", i) for i in range(40 if tier == "quick" else 200)]
+    work = [("program", i) for i in range(n_prog)] + [("whole", i) for i in range(40 if tier == "quick" else 200)] + [("frames", i) for i in range(150 if tier == "quick" else 1000)]
     for w, (kind, i) in enumerate(work):
         if not budget.ok():
             break
